@@ -2,7 +2,7 @@
    Proofs/FastVerilogProofs.v.  Models: Model/FastVerilog.v (fast_sem, full_sem, untie, in_subset). *)
 From Coq Require Import Ascii.
 From stdpp Require Import strings gmap sets.
-From CG Require Import Model.FastVerilog Model.FastVerilogText Proofs.FastVerilogTextProofs Proofs.FastVerilogProofs Proofs.FvA6 Proofs.FvA10 Proofs.FvA1 Proofs.FvD6 Proofs.FvD7 Proofs.FvE2 Proofs.FvE3 Base.Sem Gen.Gen_fastv.
+From CG Require Import Model.FastVerilog Model.FastVerilogText Proofs.FastVerilogTextProofs Proofs.FastVerilogProofs Proofs.FvA6 Proofs.FvA10 Proofs.FvA1 Proofs.FvD6 Proofs.FvD7 Proofs.FvD8 Proofs.FvE2 Proofs.FvE3 Base.Sem Gen.Gen_fastv.
 Open Scope string_scope.
 
 (* obligation on the regenerated tables: patterns of the fast reader as captured from a live call (keywords anchored with \b,
@@ -64,6 +64,14 @@ Theorem C14_property_prims_assigns : ∀ a bbs, in_subset a bbs = true → no_in
     ∀ vf, consistent (c_g Cf) vf → ∃ vl, consistent (c_g Cl) vl ∧ ∀ n, n ∈ idents a → vl n = vf n.
 Proof. exact property_gates. Qed.
 Print Assumptions C14_property_prims_assigns.
+
+(* ... and the declared inputs / outputs are exactly the inputs / outputs of both results *)
+Theorem C14_io_prims_assigns : ∀ a bbs, in_subset a bbs = true → no_inst a = true →
+  ∃ Cf Cl, fast_sem a bbs = Ok Cf ∧ full_sem a bbs = Ok Cl ∧
+    inputs (c_g Cf) = list_to_set (decl_inputs a) ∧ inputs (c_g Cl) = list_to_set (decl_inputs a) ∧
+    outputs (c_g Cf) = list_to_set (decl_outputs a) ∧ outputs (c_g Cl) = list_to_set (decl_outputs a).
+Proof. exact property_gates_io. Qed.
+Print Assumptions C14_io_prims_assigns.
 
 (* second half of "both succeed" for every AST of the subset WITHOUT blackbox instances (primitive instances and assigns, any
    statement order, use before definition): the full reader raises nothing.  Proof: invariant of its fold over add_g
